@@ -297,6 +297,16 @@ class C10(Prop):
                 l.append([rng.choice([None, rng.randint(0, 99)]), t, d, lab(rng.choice("AB"))])
             rng.shuffle(l)
             out.append(("random-any", {"pt": pt, "l": l}))
+        # events stamped in a zone that is at UTC+0 in winter, lasting across the night its clocks go forward
+        from ..common import DST_SPRING
+
+        for zone, ls in DST_SPRING:
+            for back in (600, 1800):
+                for gap in (0, 3, 5, 6, 3600, 3603):
+                    a = [None, (ls - back) * 1_000_000, 7200 * 1_000_000, lab("A")]
+                    b = [None, a[1] + a[2] + gap * 1_000_000, 10 * 1_000_000, lab("B")]
+                    c = [None, b[1] + b[2] + 4 * 1_000_000, 1_000_000, lab("B")]
+                    out.append(("dst-zone", {"pt": 5, "l": [a, b, c], "tz": [zone, zone, 0]}))
         return out
 
     # ---- both sides ------------------------------------------------------------------------
